@@ -1384,7 +1384,11 @@ def np_searchsorted(a, v, side="left", sorter=None):
     for x in vs:
         cnt = 0
         for y in vals:
-            c = core.s_lt(y, x) if side == "left" else core.s_le(y, x)
+            if isinstance(x, (str, bytes)) or isinstance(y, (str, bytes)):
+                # concrete strings (class labels): plain lexicographic comparison as numpy does
+                c = int((str(y) < str(x)) if side == "left" else (str(y) <= str(x)))
+            else:
+                c = core.s_lt(y, x) if side == "left" else core.s_le(y, x)
             cnt = core.s_add(cnt, c)
         res.append(cnt)
     if scalar:
